@@ -26,12 +26,15 @@
 (*   LabelFirst     commit writes the label before the index entries       *)
 (*   ResidueRecovery Load() discards a latest version without a root       *)
 (*   MarkerFirst    prune deletes a version's root marker before its nodes *)
+(*   BuildLabelLast an index (re)build writes the entries first and the     *)
+(*                  label, which declares the index complete, last          *)
 (* The two listed findings are the disjuncts DevPrune and DevRollback.     *)
 (***************************************************************************)
 EXTENDS Integers, Sequences, FiniteSets, TLC
 
 CONSTANTS N,               \* versions 1..N may exist
-          LabelFirst, ResidueRecovery, MarkerFirst
+          LabelFirst, ResidueRecovery, MarkerFirst,
+          BuildLabelLast   \* an index build writes its label after the entries
 
 Vers == 1..N
 
@@ -77,6 +80,24 @@ StartCommit ==
      /\ batch' = (IF LabelFirst THEN lb \o ix ELSE ix \o lb) \o <<[w |-> "body", v |-> v], [w |-> "root", v |-> v]>>
      /\ op' = [kind |-> "commit", a |-> v]
      /\ pre' = post /\ post' = Range(post.first, v)
+  /\ UNCHANGED <<body, root, idx, label, crashed, rec>>
+\* SaveVersion(latest+1) through a handle with the fast index off: nodes and root only, the label goes stale
+StartCommitNoIndex ==
+  /\ op = None /\ ~crashed /\ pre.latest < N
+  /\ LET v == post.latest + 1 IN
+     /\ batch' = <<[w |-> "body", v |-> v], [w |-> "root", v |-> v]>>
+     /\ op' = [kind |-> "commit", a |-> v]
+     /\ pre' = post /\ post' = Range(post.first, v)
+  /\ UNCHANGED <<body, root, idx, label, crashed, rec>>
+\* a handle with the index on finds a stale label and rebuilds the index from the latest version
+StartBuild ==
+  /\ op = None /\ ~crashed /\ label # post.latest
+  /\ LET v == post.latest
+         ix == <<[w |-> "idx", v |-> v], [w |-> "idxdone", v |-> v]>>
+         lb == <<[w |-> "label", v |-> v]>> IN
+     batch' = IF BuildLabelLast THEN ix \o lb ELSE lb \o ix
+  /\ op' = [kind |-> "build", a |-> post.latest]
+  /\ pre' = post /\ post' = post
   /\ UNCHANGED <<body, root, idx, label, crashed, rec>>
 \* DeleteVersionsTo(n): per version, root marker and nodes
 StartPrune(n) ==
@@ -126,7 +147,7 @@ Crash ==
              listedIntact |-> loadok /\ Contiguous(fst, lat) /\ \A v \in fst..lat : body[v]]
   /\ UNCHANGED <<body, root, idx, label, op, pre, post>>
 
-Next == StartCommit \/ (\E n \in Vers : StartPrune(n)) \/ (\E t \in Vers : StartRollback(t)) \/ Flush \/ Finish \/ Crash
+Next == StartCommit \/ StartCommitNoIndex \/ StartBuild \/ (\E n \in Vers : StartPrune(n)) \/ (\E t \in Vers : StartRollback(t)) \/ Flush \/ Finish \/ Crash
 Spec == Init /\ [][Next]_vars
 
 Is(r, rg) == r.ok /\ r.first = rg.first /\ r.latest = rg.latest
